@@ -280,8 +280,24 @@ var polBase func(label string) (policy.Policy, bool)
 // set by the world executor for the duration of a run, nil elsewhere.
 var sharedOpts map[string]delegation.Option
 
+// buildCmd turns a plan's command text into a Command the way callers do: by parsing it, or (for
+// about half of the texts a parser accepts, and for every text given as raw bytes) from its
+// segments with command.New, which does not validate.
+func buildCmd(text string) (command.Command, error) {
+	t := cmdText(text)
+	if strings.HasPrefix(text, cmdBytesPrefix) {
+		return command.New(cmdSegs(t)...), nil
+	}
+	if validCommandModel(t) && len(t)%2 == 0 {
+		if c := command.New(cmdSegs(t)...); string(c) == t {
+			return c, nil
+		}
+	}
+	return command.Parse(t)
+}
+
 func buildDelegation(c cast, s DlgSpec) (*delegation.Token, error) {
-	cmd, err := command.Parse(s.Cmd)
+	cmd, err := buildCmd(s.Cmd)
 	if err != nil {
 		return nil, fmt.Errorf("command: %w", err)
 	}
@@ -356,7 +372,7 @@ func buildDelegation(c cast, s DlgSpec) (*delegation.Token, error) {
 }
 
 func buildInvocation(c cast, s InvSpec, prf []cid.Cid) (*invocation.Token, error) {
-	cmd, err := command.Parse(s.Cmd)
+	cmd, err := buildCmd(s.Cmd)
 	if err != nil {
 		return nil, fmt.Errorf("command: %w", err)
 	}
